@@ -1504,10 +1504,16 @@ impl UntypedExpr {
 
                     for (_, expr) in typed_clauses.iter_mut() {
                         if ret_ty != expr.ty {
-                            if let Type::Unsigned(expected) = ret_ty {
-                                check_or_constrain_unsigned(expr, expected)?;
-                            } else if let Type::Signed(expected) = ret_ty {
-                                check_or_constrain_signed(expr, expected)?;
+                            // (constrain_type also types the literals nested inside the clause)
+                            if let Type::Unsigned(_) | Type::Signed(_) = ret_ty {
+                                constrain_type(expr, &ret_ty)?;
+                                if expr.ty != ret_ty {
+                                    let e = TypeErrorEnum::UnexpectedType {
+                                        expected: ret_ty.clone(),
+                                        actual: expr.ty.clone(),
+                                    };
+                                    errors.push(Some(TypeError::new(e, expr.meta)));
+                                }
                             } else {
                                 let e = TypeErrorEnum::UnexpectedType {
                                     expected: ret_ty.clone(),
